@@ -3,8 +3,8 @@
 let flags_of_variant v =
   match v with
   | "repaired" -> repaired
-  | "d_head" | "head" -> head                      (* /repo HEAD: the open findings *)
-  | "d_stale" -> { repaired with f_stale = true }   (* HEAD once the other open findings are fixed *)
+  | "d_head" | "head" -> head                      (* /repo HEAD: the open findings (stale redelivery, lagging bulk) *)
+  | "d_stale" -> { repaired with f_stale = true }   (* HEAD once the lagging-standby finding is fixed *)
   | "defective" -> defective                        (* /repo before the C11 fixes; not used by the check *)
   | _ -> failwith ("unknown variant " ^ v)
 let variant_name = ref "repaired"
@@ -71,6 +71,7 @@ let run_conc fl toks =
     let parse t = match String.split_on_char ':' t with
       | ["H"; i; sid] -> [SStart (n_of_decimal i, dummy_session (n_of_decimal sid) (n_of_int 1), false)]
       | ["F"; i] -> [SFinish (n_of_decimal i)]
+      | ["A"; b] -> [SSetActive (b = "1")]
       | ["E"; sid] -> [SStart (N0, dummy_session (n_of_decimal sid) (n_of_int 1), false); SFinish N0]
       | _ -> failwith ("bad op " ^ t) in
     let st = ss_run fl (n_of_int 1) zc (List.concat (List.map parse ops)) in
